@@ -644,7 +644,12 @@ def _simple_stmt(st: ast.stmt) -> bool:
         return False
     if isinstance(st, (ast.Assign, ast.AnnAssign, ast.AugAssign, ast.Expr)):
         return True
-    return isinstance(st, ast.If) and not st.orelse and len(st.body) == 1 and isinstance(st.body[0], ast.Continue)
+    if isinstance(st, ast.If) and not st.orelse and len(st.body) == 1 and isinstance(st.body[0], ast.Continue):
+        return True
+    # if c: <assignments> else: <assignments>   (choosing a value; no control flow leaves the statement)
+    if isinstance(st, ast.If) and not any(isinstance(n, (ast.Continue, ast.For, ast.While, ast.Try, ast.With)) for n in ast.walk(st)):
+        return all(_simple_stmt(x) for x in st.body + st.orelse)
+    return False
 
 
 def _filter_generator_shape(fn: ast.FunctionDef) -> Optional[List[ast.For]]:
